@@ -1,6 +1,7 @@
 package query
 
 import (
+	"bytes"
 	"context"
 	"fmt"
 	"io"
@@ -215,7 +216,12 @@ func (proc *Processor) ExecuteStatement(ctx context.Context, stmt parser.Stateme
 					} else {
 						writer = proc.Tx.Session.Stdout()
 					}
-					warn, e := EncodeView(ctx, writer, view, exportOptions, proc.Tx.Palette)
+					// Encode into a buffer first: a result that cannot be encoded must not leave a partial output.
+					encoded := &bytes.Buffer{}
+					warn, e := EncodeView(ctx, encoded, view, exportOptions, proc.Tx.Palette)
+					if e == nil {
+						_, e = writer.Write(encoded.Bytes())
+					}
 
 					if e != nil {
 						if e == EmptyResultSetError {
